@@ -29,6 +29,14 @@ type vhReq struct {
 	Files  []vhFile `json:"files,omitempty"`
 	BufHex string   `json:"buf_hex,omitempty"`
 	Pos    int      `json:"pos,omitempty"`
+	Rels   []vhRel  `json:"rels,omitempty"` // op resolve: relations fed to updateResolver
+	Ty     string   `json:"ty,omitempty"`   // op resolve: the type to resolve
+}
+
+// a type in prefix notation: int | str | bool | v:<name> | sl <t> | tu:<n> <t>... | fn:<n> <t>...
+type vhRel struct {
+	V string `json:"v"`
+	T string `json:"t"`
 }
 
 type vhTok struct {
@@ -156,6 +164,92 @@ func vhReinterp(buf string) (resp vhResp) {
 	return
 }
 
+func vhParseTy(toks []string) (FType, []string) {
+	if len(toks) == 0 {
+		panic("vhParseTy: truncated type")
+	}
+	t, rest := toks[0], toks[1:]
+	list := func(n int) []FType {
+		var ts []FType
+		for i := 0; i < n; i++ {
+			var e FType
+			e, rest = vhParseTy(rest)
+			ts = append(ts, e)
+		}
+		return ts
+	}
+	switch {
+	case t == "int":
+		return New_FType_FInt, rest
+	case t == "str":
+		return New_FType_FString, rest
+	case t == "bool":
+		return New_FType_FBool, rest
+	case strings.HasPrefix(t, "v:"):
+		return New_FType_FTypeVar(TypeVar{Name: t[2:]}), rest
+	case t == "sl":
+		e := list(1)
+		return New_FType_FSlice(SliceType{ElemType: e[0]}), rest
+	case strings.HasPrefix(t, "tu:"):
+		var n int
+		fmt.Sscan(t[3:], &n)
+		return New_FType_FTuple(TupleType{ElemTypes: list(n)}), rest
+	case strings.HasPrefix(t, "fn:"):
+		var n int
+		fmt.Sscan(t[3:], &n)
+		return newFFunc(list(n)), rest
+	}
+	panic("vhParseTy: unknown token " + t)
+}
+
+func vhShowTy(t FType) string {
+	many := func(ts []FType) string {
+		var b strings.Builder
+		for _, e := range ts {
+			b.WriteString(" " + vhShowTy(e))
+		}
+		return b.String()
+	}
+	switch v := t.(type) {
+	case FType_FInt:
+		return "int"
+	case FType_FString:
+		return "str"
+	case FType_FBool:
+		return "bool"
+	case FType_FTypeVar:
+		return "v:" + v.Value.Name
+	case FType_FSlice:
+		return "sl " + vhShowTy(v.Value.ElemType)
+	case FType_FTuple:
+		return fmt.Sprintf("tu:%d", len(v.Value.ElemTypes)) + many(v.Value.ElemTypes)
+	case FType_FFunc:
+		return fmt.Sprintf("fn:%d", len(v.Value.Targets)) + many(v.Value.Targets)
+	}
+	return fmt.Sprintf("?%v", t)
+}
+
+// updateResolver on a fresh resolver with the given relations, then resolveType; the result is in Err when it panics
+// (the cyclic-type diagnostic) and in Fmt (prefix notation, hex) otherwise.
+func vhResolve(rels []vhRel, ty string) (resp vhResp) {
+	defer func() {
+		if r := recover(); r != nil {
+			resp.Ok = false
+			resp.Err = fmt.Sprintf("%v", r)
+		}
+	}()
+	var urs []UniRel
+	for _, r := range rels {
+		t, _ := vhParseTy(strings.Fields(r.T))
+		urs = append(urs, UniRel{SrcV: r.V, Dest: t})
+	}
+	rsv := updateResolver(newResolver(), urs)
+	t, _ := vhParseTy(strings.Fields(ty))
+	resp.Fmt = hex.EncodeToString([]byte(vhShowTy(resolveType(rsv, t))))
+	resp.Ok = true
+	return
+}
+
 func vhTables() (resp vhResp) {
 	resp.BinOps = map[string][]any{}
 	for tt, bi := range binOpMap {
@@ -202,6 +296,8 @@ func vhServe() {
 					resp = vhSInterP(string(buf))
 				case "reinterp":
 					resp = vhReinterp(string(buf))
+				case "resolve":
+					resp = vhResolve(req.Rels, req.Ty)
 				case "tables":
 					resp = vhTables()
 				default:
